@@ -1,4 +1,4 @@
-import BobModel.Proofs.C08Ops
+import BobModel.Proofs.C08Fallback
 /-
 Helper lemmas for Props/C08.lean, part 5: what the checks of the repaired dispatch
 (`checkMember`, `tarFilter`) establish, and that the extraction of one checked member
@@ -56,6 +56,12 @@ def LinkOk (dest : Path) (cfg : Cfg) (a : FS) (linkname : Str) : Prop :=
   ∃ s rsrc, walk a false false cfg.fuel [] (linkSrc dest linkname) = .ok s ∧ symTarget a s = none ∧
     walk a false true cfg.fuel [] (linkSrc dest linkname) = .ok rsrc ∧ Inside dest rsrc
 
+/-- what the repaired check has seen with the kernel's eyes: the link source is an existing
+non-link file object, and the link's own path `full` is missing as far as it resolves -/
+def LinkStrict (dest : Path) (cfg : Cfg) (a : FS) (full : List Name) (linkname : Str) : Prop :=
+  (∃ s i, kres a cfg false (linkSrc dest linkname) = .ok s ∧ a.look s = some (.ref i)) ∧
+  (∀ d, kres a cfg false full = .ok d → a.look d = none)
+
 theorem LinkOk.transport {a b : FS} (h : SameSym a b) {ln : Str} (hl : LinkOk dest cfg a ln) : LinkOk dest cfg b ln := by
   obtain ⟨s, rsrc, h1, h2, h3, h4⟩ := hl
   exact ⟨s, rsrc, by rw [← walk_lenient_sameSym h false]; exact h1, by rw [← h s]; exact h2,
@@ -68,7 +74,8 @@ theorem extractMember_conf (hdne : dest ≠ []) (hdp : ∀ c ∈ dest, c ≠ dot
     (hnc : comps m.name = ups ++ [c]) (hups : ∀ x ∈ ups, Plain x) (hc : Plain c)
     {P R : Path} (hP : walk a false true cfg.fuel [] (dest ++ ups) = .ok P) (hPin : Inside dest P)
     (hR : walk a false true cfg.fuel [] (dest ++ ups ++ [c]) = .ok R) (hRin : Inside dest R)
-    (hlnk : m.type = .lnk → LinkOk dest cfg a m.linkname) (prev : List (Str × MType)) :
+    (hlnk : m.type = .lnk → LinkOk dest cfg a m.linkname ∧ LinkStrict dest cfg a (dest ++ comps m.name) m.linkname)
+    (prev : List Member) :
     MStep dest a (extractMember cfg a dest prev m).1 ∧ Inv dest (extractMember cfg a dest prev m).1 := by
   have hcd : c ≠ dot ∧ c ≠ dotdot := ⟨hc.2.1, hc.2.2⟩
   have hfull : dest ++ comps m.name = dest ++ ups ++ [c] := by rw [hnc, List.append_assoc]
@@ -76,15 +83,18 @@ theorem extractMember_conf (hdne : dest ≠ []) (hdp : ∀ c ∈ dest, c ≠ dot
   unfold extractMember
   simp only [hfull, hdrop]
   have hrec : Good dest a (if dest ++ ups ≠ [] ∧ kexists a cfg (dest ++ ups) = false
+      then makedirs a cfg (dest ++ ups).length (dest ++ ups) else (a, KRes.ok)).1 ∧
+      OnlyNew P a (if dest ++ ups ≠ [] ∧ kexists a cfg (dest ++ ups) = false
       then makedirs a cfg (dest ++ ups).length (dest ++ ups) else (a, KRes.ok)).1 := by
     split
-    · exact makedirs_good hdne hdp hfuel hups hPin _ ups [] a (by simp) hinv hP
-    · exact Good.refl hinv
+    · exact ⟨makedirs_good hdne hdp hfuel hups hPin _ ups [] a (by simp) hinv hP,
+        makedirs_onlyNew hdne hdp hfuel hups hPin _ ups [] a (by simp) hinv hP⟩
+    · exact ⟨Good.refl hinv, OnlyNew.refl _ _⟩
   generalize (if dest ++ ups ≠ [] ∧ kexists a cfg (dest ++ ups) = false
       then makedirs a cfg (dest ++ ups).length (dest ++ ups) else (a, KRes.ok)) = r1 at hrec ⊢
   obtain ⟨a1, res⟩ := r1
   simp only [] at hrec ⊢
-  obtain ⟨hm1, hinv1, hss1⟩ := hrec
+  obtain ⟨⟨hm1, hinv1, hss1⟩, hon1⟩ := hrec
   have hP1 : walk a1 false true cfg.fuel [] (dest ++ ups) = .ok P := by
     rw [← walk_lenient_sameSym hss1 true]; exact hP
   have hR1 : walk a1 false true cfg.fuel [] (dest ++ ups ++ [c]) = .ok R := by
@@ -128,17 +138,51 @@ theorem extractMember_conf (hdne : dest ≠ []) (hdp : ∀ c ∈ dest, c ≠ dot
       by_cases hsl : m.linkname.getLast? = some slash
       · simp only [hsl, if_true]; exact ⟨hm1, hinv1⟩
       · simp only [hsl, if_false]
-        have hl1 := (hlnk hty).transport hss1
+        have hl1 := (hlnk hty).1.transport hss1
         obtain ⟨s, rsrc, h1, h2, h3, h4⟩ := hl1
+        obtain ⟨⟨s0, i0, hks, hls⟩, hD⟩ := (hlnk hty).2
+        rw [hfull] at hD
         have hsrc : (if isAbs m.linkname = true then comps m.linkname else dest ++ comps m.linkname) = linkSrc dest m.linkname := rfl
         rw [hsrc]
-        by_cases hex : kexists a1 cfg (linkSrc dest m.linkname) = true
-        · simp only [hex, if_true]
-          have hw := kLink_good (cfg := cfg) hinv1 hcd hP1 hPin h1 h2 h3 h4
-          cases (kLink a1 cfg (linkSrc dest m.linkname) (dest ++ ups ++ [c])).2 <;> first
-            | exact hattr hw _
-            | exact hstop hw
-        · simp only [hex, if_false]; exact ⟨hm1, hinv1⟩
+        -- the source is still there after `makedirs`
+        have hks1 : kres a1 cfg false (linkSrc dest m.linkname) = .ok s0 := by
+          unfold kres at hks ⊢
+          exact walk_strict_grow hon1.grow false _ _ _ _ _ hks hls
+        have hls1 : a1.look s0 = some (.ref i0) := hon1.grow.2 _ _ hls
+        have hs0 : s0 = s := by
+          unfold kres at hks1
+          have := walk_strict_lenient a1 false _ _ _ _ hks1
+          rw [h1] at this; exact (Except.ok.inj this).symm
+        subst hs0
+        have hex : kexists a1 cfg (linkSrc dest m.linkname) = true := by
+          unfold kexists
+          have : kres a1 cfg true (linkSrc dest m.linkname) = .ok s0 := by
+            unfold kres at hks1 ⊢
+            exact walk_nofollow_follow a1 true _ _ _ _ hks1 h2
+          rw [this]
+          simp [hls1]
+        simp only [hex, if_true]
+        have hw := kLink_good (cfg := cfg) hinv1 hcd hP1 hPin h1 h2 h3 h4
+        cases hk : kres a1 cfg false (dest ++ ups ++ [c]) with
+        | ok L =>
+          -- the link's own name resolves: it is still missing, `os.link` succeeds, no fallback
+          have hloc := nofollow_location hinv1 hcd hP1 hPin (by unfold kres at hk; exact hk)
+          have hL : L = P ++ [c] := hloc.1
+          subst hL
+          have hmiss := dst_missing_transport (cfg := cfg) hinv.wf hon1 hD hk
+          have hok : (kLink a1 cfg (linkSrc dest m.linkname) (dest ++ ups ++ [c])).2 = .ok := by
+            unfold kLink
+            simp only [hks1, hk, hls1, hmiss]
+          simp only [hok]
+          exact hattr hw _
+        | error e =>
+          -- it does not resolve: `os.link` fails, and so does every operation of the re-extraction
+          have hun : kLink a1 cfg (linkSrc dest m.linkname) (dest ++ ups ++ [c]) = (a1, .unsup) := by
+            unfold kLink
+            simp only [hks1, hk]
+          simp only [hun]
+          rw [linkFallback_nochange hk]
+          exact ⟨hm1, hinv1⟩
     | fifo =>
       simp only []
       have hw := kMknod_good (cfg := cfg) hinv1 hcd hP1 hPin .fifo (by intro t h; cases h)
@@ -164,7 +208,7 @@ theorem checkMember_facts (hcn : cfg.canonNames = true) (hcp : cfg.parentCheck =
     {m : Member} (h : checkMember cfg a dest m = .ok ()) :
     canonical m.name = true ∧
     (∃ P, walk a false true cfg.fuel [] (dest ++ (comps m.name).dropLast) = .ok P ∧ Inside dest P) ∧
-    (m.type = .lnk → LinkOk dest cfg a m.linkname) := by
+    (m.type = .lnk → LinkOk dest cfg a m.linkname ∧ LinkStrict dest cfg a (dest ++ comps m.name) m.linkname) := by
   unfold checkMember at h
   rw [realpath_dest hinv hdp hfuel] at h
   simp only [hcn, hcp, hcl, true_and, if_true] at h
@@ -205,9 +249,14 @@ theorem checkMember_facts (hcn : cfg.canonNames = true) (hcp : cfg.parentCheck =
                     obtain ⟨ob, md⟩ := ino
                     cases ob with
                     | file d =>
-                      refine ⟨s, rsrc, walk_strict_lenient a false _ _ _ _ hks, ?_, hrs,
-                        List.isPrefixOf_iff_prefix.mp hri⟩
-                      simp [symTarget, hls, hi]
+                      refine ⟨⟨s, rsrc, walk_strict_lenient a false _ _ _ _ hks, ?_, hrs,
+                        List.isPrefixOf_iff_prefix.mp hri⟩, ⟨s, i, hks, hls⟩, ?_⟩
+                      · simp [symTarget, hls, hi]
+                      · intro d' hd'
+                        simp only [hi, hd'] at h
+                        cases hld : a.look d' with
+                        | none => rfl
+                        | some e' => simp [hld] at h
                     | symlink t => simp [hi] at h
                     | fifo => simp [hi] at h
                     | chr => simp [hi] at h
